@@ -66,6 +66,7 @@ PROPS = {
     },
     "C01": {
         "suites": ["scheme"],
+        "fail_kinds": ["newhash-failed", "fresh-hash-rejected", "fresh-hash-rejected-dispatch", "not-canonical", "crash", "op-panic", "op-timeout"],
         "level": "proof",
         "technique": "Lean 4 proof (KDF totality for every password length by induction over the loops; generated salt always passes the regenerated guards; dispatcher facts) + Go/Lean byte-identical NewHash/Check correspondence under scripted entropy",
         "claim": "Kernel-checked END TO END on the scheme-level model, for all ten schemes and EVERY request: the string NewHash returns verifies with the password it was made from (EndToEnd.newHash_then_check_<scheme>; Key treated as an opaque function, so this holds for every password length and byte content), NewHash succeeds with a non-empty hash on the scheme's domain (newHash_ok/total_<scheme>), a salt drawn by Encoding.Rand violates no guard clause, the KDF skeletons return a key for every password length and every hash function (the loop arithmetic that panicked for long passwords), every documented prefix is registered with its package's Check and the dispatcher routes by prefix (C07). On the real code NewHash→Check→crypt.Check is run on every boundary length, and the generated hash string is byte-identical with the model's under scripted crypto/rand.",
@@ -79,12 +80,13 @@ PROPS = {
     },
     "C02": {
         "suites": ["scheme"],
+        "fail_kinds": ["wrong-password-accepted", "tampered-digest-accepted", "crash"],
         "level": "proof",
         "technique": "Lean 4 proof (exact characterisation of Check success on the pipeline model; digest tampering; absorption reductions to hash collisions by walking the round chain backwards) + exhaustive digest-substitution and near-miss-password search on Go",
         "claim": "Kernel-checked for ALL hashes/passwords and every scheme instance of the pipeline: Check returns nil iff Unmarshal succeeds, Key succeeds on the hash's own salt/cost/variant and the COMPLETE encoded digest equals the stored text; "
                  "Unmarshal/Key errors are returned, never swallowed; two hashes differing only in digest text never both verify. Absorption for all H: equal md5-crypt / SHA-crypt / Sun-MD5 keys imply equal passwords or an explicitly located hash collision; sha1-crypt up to HMAC key equivalence. "
                  "On Go: every single-symbol substitution at every digest position and near-miss passwords (bit flips, append/remove, case, truncation at 8/16/32/64/72) never verify.",
-        "note": "Partial by nature: 'not equivalent ⇒ different digest' is, beyond the reductions, collision resistance of MD5/SHA/HMAC/DES/EksBlowfish/Argon2 — an explicit disjunct/hypothesis, never an axiom. DES/bcrypt/Argon2 absorption is not proved (sampled).",
+        "note": "Every scheme now has its reduction (Props/KdfProps.lean, Props/C02b.lean): the documented password equivalence as an explicit predicate, 'equivalent passwords get the same verdict', and 'if both verify against one hash they are equivalent OR a named statement about the primitive alone holds' (Collision H / KeyedCollision HMAC / DesCryptCollision / BcryptCollision / Collision blake2b ∨ Argon2CoreCollision) — the cryptographic non-collision assumption is an explicit disjunct, never an axiom. Two places where the ALGORITHM identifies more passwords than C02's wording were found by these proofs, reproduced on the real code (and on libxcrypt) and recorded as known findings: F16 (every BSDi password over 8 bytes has an 8-byte twin: the folded key's 7-bit bytes; the fold also collides) and F17 (bcrypt's key schedule reads the key cyclically: \"a\" ≡ \"a\\0a\"). NT hash is not injective on ill-formed UTF-8 (every bad byte ↦ U+FFFD) but is on well-formed input.",
         "rule": "scheme: for each generated hash: near-miss passwords (single-bit flips at byte positions, one byte appended/removed/prepended, case change, truncations at 8/16/32/64/72) — all must not verify; "
                 "for the first 3 (quick) / 20 (thorough) hashes per scheme EVERY substitution of EVERY digest position by every other alphabet symbol (exhaustive; Go only) plus a 1/97 sample through the model; "
                 "non-trivial/distinct = distinct generated hashes",
@@ -108,7 +110,7 @@ PROPS = {
     },
     "C05": {
         "suites": ["kdf", "classify", "parse", "dispatch", "b64", "stream", "codec"],
-        "fail_kinds": ["check-panic", "check-timeout", "key-panic", "key-timeout", "newhash-failed", "op-panic", "op-timeout", "decode-panic", "enc-panic", "dec-panic", "goroutine-leak"],
+        "fail_kinds": ["check-panic", "check-timeout", "key-panic", "key-timeout", "newhash-failed", "op-panic", "op-timeout", "crash", "decode-panic", "enc-panic", "dec-panic", "goroutine-leak"],
         "level": "proof",
         "technique": "Lean 4 proof (totality of every model function by kernel-checked recursion; explicit panic values proved unreachable) + outcome-class correspondence with recover and watchdog on structured mutations and short junk strings",
         "claim": "Kernel-checked: the parser model always returns (error or tree), never stores a nil value, groups are non-empty; the KDF skeletons return a key for EVERY password length and hash function; every base64 alphabet index is < 64; the lexer's terminal token is its last. "
@@ -207,6 +209,7 @@ PROPS = {
     },
     "C12": {
         "suites": ["scheme"],
+        "fail_kinds": ["not-canonical", "incoherent", "fresh-hash-rejected", "newhash-failed", "tampered-digest-accepted", "crash"],
         "level": "proof",
         "technique": "Lean 4 proof (Params and Check apply the same defaults — decided on the regenerated flow IR; canonical-domain round trips of the ten layouts) + byte-for-byte NewHash correspondence and an independent canonical-layout recogniser on Go",
         "claim": "Kernel-checked END TO END on the model for all ten schemes and every request: the string NewHash returns is accepted by an independently written recogniser of the documented layout with exactly the documented prefix, the requested cost in canonical form, a salt of the (regenerated) default length over the alphabet and a fixed-length digest that is Key's own result re-encoded (EndToEnd.newHash_canonical_<scheme>); Params returns the request and the drawn salt (params_of_newHash_<scheme>); Params and Check of every scheme contain the same default-filling statements (decided on the regenerated flow IR); Check succeeds iff Key on the extracted parameters re-encodes to the stored digest (C02.check_ok_iff). On Go: every generated hash matches an independently written regular expression, Params returns the requested cost/options and the generated salt, the hash equals the model's reassembly byte for byte, the BSDi integer coding is compared on every 6-bit boundary and at the exported bound, and Check ⇔ Key(Params) is checked on the accepted non-canonical spellings.",
@@ -261,7 +264,7 @@ PROPS = {
     "C09": {
         "suites": ["purego-race:argonsched", "argon"],
         "level": "proof",
-        "fail_kinds": ["data-race", "schedule-dependent", "goroutine-leak", "reference-set", "differs-from-sequential", "differs-from-rfc"],
+        "fail_kinds": ["data-race", "schedule-dependent", "goroutine-leak", "reference-set", "differs-from-sequential", "differs-from-rfc", "crash"],
         "technique": "Lean 4 proof (reference-set theorem about the index kernel regenerated from source; schedule independence of tasks with disjoint write regions, for every schedule) + race-detector exploration of the portable build under perturbed scheduling",
         "claim": "Kernel-checked: (1) reference-set theorems about the indexAlpha kernel regenerated from the source (a cross-lane reference never points into the slice being written; a same-lane reference is strictly earlier; everything inside the memory); (2) for tasks that write only their own region and read only it and a frozen area, EVERY schedule leaves each region exactly as the task's solo run; (3) the link to the concrete model: the model's own fill loop is the sequential run of the instantiated lane tasks (C09Link.model_fill_eq_seqFill), hence for every input on the documented domain and EVERY family of complete schedules the phases followed by extractKey give exactly the model's key, which equals the RFC 9106 reference (C04.key_eq_rfc); (4) the goroutine/WaitGroup structure of processBlocks regenerated from the source equals the shape the phase model assumes (workers_joined_facts). Go side: lanes 2..8 × 3 variants × 2 versions × memory {8p, 8p+3, 32p} × time 1..3 × GOMAXPROCS {1,2,3,16} with competing goroutines, on the purego build under the race detector; keys equal the sequential Lean model; goroutine count restored.",
         "note": "Kernel-checked: the reference-set theorems about the generated indexAlpha (refset_in_memory, refset_cross_lane_completed, refset_same_lane_earlier), the generic phase theorem (schedule_independent, complete_schedules_agree, complete_eq_sequential) and its Argon2 instantiation (argon2_phase_local, argon2_no_read_of_foreign_segment, key_schedule_independent: every complete schedule of all 4·time phases equals the sequential fill). "
